@@ -505,13 +505,25 @@ func c14Tasks(thorough bool) []c14Task {
 		// stores and function entries on the rich inputs: one preemption anywhere
 		ts = append(ts, c14Task{si, 2, 1, 1, false}, c14Task{si, 2, 2, 1, false})
 		// finest granularity on tiny inputs: two preemptions
-		if si > 0 {
+		switch {
+		case si >= 2:
 			ts = append(ts, c14Task{si, 2, 2, 2, true})
-		} else {
+		case si == 0:
 			ts = append(ts, c14Task{si, 2, 1, 2, true})
+		case thorough:
+			ts = append(ts, c14Task{si, 2, 2, 2, true}) // S2 at this depth costs a minute: thorough only (quick has granularity 1, bound 2)
+		}
+		// three jobs: one preemption at the finer granularities
+		ts = append(ts, c14Task{si, 3, 1, 1, false}, c14Task{si, 3, 2, 1, true})
+		// shared-object scenarios: two preemptions at store granularity on the full inputs
+		if si > 0 {
+			ts = append(ts, c14Task{si, 2, 1, 2, false})
 		}
 		if thorough {
-			ts = append(ts, c14Task{si, 2, 1, 2, false}, c14Task{si, 3, 0, 4, false}, c14Task{si, 3, 1, 1, false}, c14Task{si, 3, 2, 1, true}, c14Task{si, 2, 2, 2, true})
+			ts = append(ts, c14Task{si, 3, 0, 4, false}, c14Task{si, 3, 2, 1, false})
+			if si == 0 {
+				ts = append(ts, c14Task{si, 2, 1, 2, false})
+			}
 			if si >= 2 {
 				ts = append(ts, c14Task{si, 2, 2, 3, true}, c14Task{si, 3, 2, 2, true})
 			}
@@ -745,7 +757,7 @@ func c14Replay(pl json.RawMessage) (string, []core.Violation) {
 func init() {
 	core.Register(&core.PropSpec{
 		ID: "C14", Level: "model_checking",
-		Rule:     "(H) every history <= depth 4 (5 thorough, reduced alphabet) ending in an observation over 35 calls on two parser/lexer builder stacks and two compilers {NewBuilder, RegisterInfix/Postfix/Prefix with plugin token types, Use*Interceptor, WithTolerantMode, WithSmartSemicolon, Build(4 inputs)+ParseProgram, WithPrettyPrint x2, WithSourceMap, Compile(tree of A|B), debug.ToString}: each Build observation (errors, tree dump with positions, final context) and each Compile observation (code, mappings, names) equals the observation of the same configuration replayed on FRESH instances used alone; the tree dump is unchanged by Compile/ToString; Code with source map = Code without; debug.ToString = compact compilation. (S) schedules: the jobs of 4 scenarios (S1 distinct builders with different plugins/options/inputs, S2 one shared parser builder, S3 one shared tree compiled under different configurations + debug.ToString, S4 one shared configured compiler) run as threads of a cooperative scheduler on the overlay-instrumented library (yield points: every access to a package-level variable [granularity 0], + every store through a selector/index/pointer [1], + every function and closure entry [2]); iterative context bounding: ALL schedules with <= b preemptions are executed (2 jobs: b=3 at granularity 0, b=1 at granularities 1 and 2 on the full inputs, b=2 at granularity 2/1 on one-expression inputs; 3 jobs: b=2 at granularity 0; more in the thorough tier); each job's result must equal its result when run alone; a violating schedule is replayed and must reproduce before it is believed; a package-level variable written by one job and accessed by another is reported (the library has no synchronisation). (R) complement, sampling, not the deciding step: the same jobs free-running on 16 goroutines under the race detector. states = histories + schedules executed; transitions = history steps + scheduling steps",
+		Rule:     "(H) every history <= depth 4 (5 thorough, reduced alphabet) ending in an observation over 37 calls on two parser/lexer builder stacks and two compilers {NewBuilder, RegisterInfix/Postfix/Prefix with plugin token types, two order-observable statement interceptors, a re-entrant expression interceptor, WithTolerantMode, WithSmartSemicolon, Build(4 inputs)+ParseProgram, WithPrettyPrint x2, WithSourceMap, Compile(tree of A|B), debug.ToString}: each Build observation (errors, tree dump with positions, final context) and each Compile observation (code, mappings, names) equals the observation of the same configuration replayed on FRESH instances used alone; the tree dump is unchanged by Compile/ToString; Code with source map = Code without; debug.ToString = compact compilation. (S) schedules: the jobs of 4 scenarios (S1 distinct builders with different plugins/options/inputs, S2 one shared parser builder, S3 one shared tree compiled under different configurations + debug.ToString, S4 one shared configured compiler) run as threads of a cooperative scheduler on the overlay-instrumented library (yield points: every access to a package-level variable [granularity 0], + every store through a selector/index/pointer [1], + every function and closure entry [2]); iterative context bounding: ALL schedules with <= b preemptions are executed (quick tier, 2 jobs: b=3 at granularity 0; b=1 at granularities 1 and 2 on the full inputs; b=2 at granularity 1 on the full inputs for the shared-object scenarios S2-S4; b=2 at granularity 2 on one-expression inputs for S3 and S4, at granularity 1 for S1; 3 jobs: b=2 at granularity 0, b=1 at granularity 1 on the full inputs and at granularity 2 on one-expression inputs; thorough adds S2 at granularity 2 with b=2, 3 jobs with b=4 at granularity 0, S1 with b=2 at granularity 1, and b=3 / 3 jobs b=2 at granularity 2 for S3, S4); the exact task list and the time of each task are in the evidence file; each job's result must equal its result when run alone; a violating schedule is replayed and must reproduce before it is believed; a package-level variable written by one job and accessed by another is reported (the library has no synchronisation). (R) complement, sampling, not the deciding step: the same jobs free-running on 16 goroutines under the race detector. states = histories + schedules executed; transitions = history steps + scheduling steps",
 		Assume:   []string{"sequential consistency; scheduling points as listed (races between two accesses inside one function without a store or call in between are left to the race pass)", "solo replay = the builder's configuration calls without its earlier Build calls"},
 		QuickSec: 400, ThorSec: 3000, Run: c14Run, Replay: c14Replay,
 		Evals: "observations_compared_with_solo", Nontriv: "schedules", States: "histories", Trans: "schedule_steps",
